@@ -323,6 +323,14 @@ func c13EndToEnd(c *Ctx) {
 		}
 		c13EEmit(c, "e2e-"+nw.name, nw.w, "local", "proto", "e2e-fixed")
 	}
+	for _, nw := range c13ELegacyWorlds(base) {
+		if len(nw.w.files) == 0 || len(nw.w.profiles) == 0 {
+			continue
+		}
+		for _, f := range []string{"proto", "top"} {
+			c13EEmit(c, "e2e-"+nw.name, nw.w, "fastlocal", f, "e2e-fixed", "e2e-legacy")
+		}
+	}
 	// sessions and web requests on the decisive shapes
 	for _, nw := range c13EFixedWorlds(base) {
 		if len(nw.w.files) == 0 || len(nw.w.profiles) == 0 {
@@ -348,4 +356,143 @@ func c13EndToEnd(c *Ctx) {
 		c13EEmit(c, "e2e-random", w, mode, format)
 		os.RemoveAll(w.dir)
 	}
+}
+
+// ---------------------------------------------------------------- legacy profiles (round 5)
+// The memory map of a legacy profile goes through ParseMemoryMap -> massageMappings (adjacent
+// entries of one file merged, main binary moved first) -> remapMappingIDs (anon_hugepage entry
+// dropped, 0x400000 normalisation, locations attached by address, "first part missing"
+// work-around). These worlds list the text of a binary the way /proc/self/maps shows it after the
+// VMA was split, partly remapped on huge pages, or partly omitted.
+
+func c13ELegacyLayout(etype elf.Type, v uint64) c13Layout {
+	// text from file offset 0, three pages; data behind it
+	return c13Layout{etype: etype, progs: []elf.ProgHeader{
+		{Type: elf.PT_LOAD, Flags: elf.PF_R | elf.PF_X, Off: 0, Vaddr: v, Paddr: v, Filesz: 0x2c80, Memsz: 0x2c80, Align: 0x1000},
+		{Type: elf.PT_LOAD, Flags: elf.PF_R | elf.PF_W, Off: 0x2c80, Vaddr: v + 0x3c80, Paddr: v + 0x3c80, Filesz: 0x1f0, Memsz: 0x2f0, Align: 0x1000},
+	}}
+}
+
+type c13ELegacyEntry struct {
+	lo, hi, off uint64 // link-relative start / limit, file offset
+	fkind       int
+}
+
+// one process of file fi at bias, its text listed as `entries`; one sample (depth 2 where possible)
+// per link address in `at` (each must lie inside a function), values 1, 2, 3 ...
+func (w *c13EWorld) legacyProfile(fi int, bias uint64, entries []c13ELegacyEntry, at []uint64) c13EProfile {
+	f := w.files[fi]
+	p := c13EProfile{legacy: true, scale: 1}
+	for _, e := range entries {
+		m := c13EMapping{start: bias + e.lo, limit: bias + e.hi, offset: e.off, file: f.path, rec: fi, truth: fi, bias: bias, fkind: e.fkind}
+		if e.fkind >= 2 {
+			m.rec = -1
+		}
+		p.mappings = append(p.mappings, m)
+	}
+	fnAt := func(x uint64) (c13ESym, bool) {
+		for _, s := range f.funcs() {
+			if x >= s.addr && x < s.addr+s.size {
+				return s, true
+			}
+		}
+		return c13ESym{}, false
+	}
+	entryOf := func(x uint64) int {
+		for i, e := range entries {
+			if x >= e.lo && x < e.hi && e.fkind < 2 {
+				return i
+			}
+		}
+		// not listed: the statement is about the file and bias, carried by any entry of the file
+		for i, e := range entries {
+			if e.fkind < 2 {
+				return i
+			}
+		}
+		return 0
+	}
+	var prev *c13EFrame
+	for k, x := range at {
+		fn, ok := fnAt(x)
+		if !ok {
+			continue
+		}
+		fr := c13EFrame{entryOf(x), bias + fn.addr + fn.size/2}
+		st := []c13EFrame{fr}
+		if prev != nil {
+			st = append(st, *prev)
+		}
+		p.samples = append(p.samples, c13ESample{st, int64(k + 1)})
+		prev = &fr
+	}
+	return p
+}
+
+func c13ELegacyWorlds(base string) []c13ENamedWorld {
+	var out []c13ENamedWorld
+	mk := func(name string) *c13EWorld {
+		w := &c13EWorld{dir: filepath.Join(base, name)}
+		os.MkdirAll(w.dir, 0o755)
+		out = append(out, c13ENamedWorld{name, w})
+		return w
+	}
+	const B = uint64(0x7f3a5c200000)
+	at := []uint64{0x1400, 0x300, 0x2300, 0x900, 0x1a00} // a later part first, then the first part, ...
+	for _, v := range []struct {
+		name    string
+		entries []c13ELegacyEntry
+	}{
+		{"legacy-one-entry", []c13ELegacyEntry{{0, 0x3000, 0, 0}}},
+		{"legacy-split2", []c13ELegacyEntry{{0, 0x1000, 0, 0}, {0x1000, 0x3000, 0x1000, 0}}},
+		{"legacy-split3", []c13ELegacyEntry{{0, 0x1000, 0, 0}, {0x1000, 0x2000, 0x1000, 0}, {0x2000, 0x3000, 0x2000, 0}}},
+		{"legacy-hugepage-noname", []c13ELegacyEntry{{0, 0x1000, 0, 2}, {0x1000, 0x3000, 0x1000, 0}}},
+		{"legacy-anon-hugepage", []c13ELegacyEntry{{0, 0x1000, 0, 3}, {0x1000, 0x3000, 0x1000, 0}}},
+		{"legacy-gap", []c13ELegacyEntry{{0, 0x1000, 0, 0}, {0x2000, 0x3000, 0x2000, 0}}},
+		{"legacy-first-part-missing", []c13ELegacyEntry{{0x1000, 0x3000, 0x1000, 0}}},
+	} {
+		w := mk(v.name)
+		a := w.addFile("bin/app", c13ELegacyLayout(elf.ET_DYN, 0), "app", 40, "")
+		if a < 0 {
+			continue
+		}
+		use := at
+		if v.name == "legacy-gap" {
+			use = []uint64{0x2300, 0x300, 0x900, 0x2500}
+		}
+		w.profiles = []c13EProfile{w.legacyProfile(a, B, v.entries, use)}
+	}
+	{ // -z separate-code: the executable part starts at file offset 0x1000, split in two
+		w := mk("legacy-split2-sepcode")
+		if a := w.addFile("bin/sep", c13ESepLayout(elf.ET_DYN, 0), "sep", 30, ""); a >= 0 {
+			w.profiles = []c13EProfile{w.legacyProfile(a, B, []c13ELegacyEntry{{0x1000, 0x2000, 0x1000, 0}, {0x2000, 0x3000, 0x2000, 0}},
+				[]uint64{0x2100, 0x1300, 0x2400, 0x1500})}
+		}
+	}
+	{ // a non-PIE program at 0x400000 whose first page is not listed (start - offset = 0x400000)
+		w := mk("legacy-exec-400000")
+		if a := w.addFile("bin/prog", c13ELegacyLayout(elf.ET_EXEC, 0x400000), "prog", 40, ""); a >= 0 {
+			w.profiles = []c13EProfile{w.legacyProfile(a, 0, []c13ELegacyEntry{{0x401000, 0x403000, 0x1000, 0}},
+				[]uint64{0x401400, 0x400300, 0x402300, 0x400900})}
+		}
+	}
+	{ // a library listed before the main binary, both split
+		w := mk("legacy-lib-before-main")
+		l := w.addFile("lib/libx.so", c13ELegacyLayout(elf.ET_DYN, 0), "libx", 40, "")
+		a := w.addFile("bin/app", c13ELegacyLayout(elf.ET_DYN, 0), "app", 40, "")
+		if l >= 0 && a >= 0 {
+			pl := w.legacyProfile(l, B, []c13ELegacyEntry{{0, 0x1000, 0, 1}, {0x1000, 0x3000, 0x1000, 1}}, []uint64{0x1400, 0x300})
+			pa := w.legacyProfile(a, 0x55d0c4e00000, []c13ELegacyEntry{{0, 0x2000, 0, 0}, {0x2000, 0x3000, 0x2000, 0}}, []uint64{0x2300, 0x900})
+			// one process: both binaries in one profile, the library's entries first
+			for i := range pa.samples {
+				for j := range pa.samples[i].stack {
+					pa.samples[i].stack[j].m += len(pl.mappings)
+				}
+			}
+			pl.mappings = append(pl.mappings, pa.mappings...)
+			pl.samples = append(pl.samples, pa.samples...)
+			w.profiles = []c13EProfile{pl}
+		}
+	}
+	return out
 }
